@@ -843,6 +843,31 @@ func (g *Gen) trCall(x ECall, env *Env) Val {
 		return Val{T: fmt.Sprintf("(and (not (= %[2]s 0)) (select (select %[1]s %[2]s) %[3]s))", g.arr(env.heap, has, "(Array "+ks+" Bool)"), m.T, k.T), Ty: tyBool}
 	case "alloc":
 		return Val{T: fmt.Sprintf("(select %s %s)", g.arr(env.heap, "alloc", "Bool"), arg(0).T), Ty: tyBool}
+	case "contains":
+		// contains(s, "literal"): the literal occurs in s. Only what follows from how s was put
+		// together is known: a literal piece that contains it, and closure under concatenation.
+		sv := arg(0)
+		lit, ok := x.Args[1].(EStr)
+		if !ok {
+			trFail("contains needs a string literal as second argument")
+		}
+		ln := g.strLit(lit.V)
+		if !g.declared["str-contains"] {
+			g.declareFun("str-contains", []string{"Str", "Str"}, "Bool")
+			g.sconcat("str!empty", "str!empty") // make sure sconcat is declared
+			if !g.declared["sconcat"] {
+				g.declareFun("sconcat", []string{"Str", "Str"}, "Str")
+			}
+			g.assume("(forall ((a Str) (b Str) (l Str)) (! (=> (or (str-contains a l) (str-contains b l)) (str-contains (sconcat a b) l)) :pattern ((str-contains (sconcat a b) l))))")
+		}
+		for o, on := range g.strLits {
+			k := "contains:" + on + ":" + ln
+			if strings.Contains(o, lit.V) && !g.assumed[k] {
+				g.assumed[k] = true
+				g.assume(fmt.Sprintf("(str-contains %s %s)", on, ln))
+			}
+		}
+		return Val{T: fmt.Sprintf("(str-contains %s %s)", sv.T, ln), Ty: tyBool}
 	case "zeroof":
 		// the zero value of a type
 		ts, ok := x.Args[0].(EStr)
